@@ -201,17 +201,16 @@ theorem read_uint_len_eq (r : Bytes) : read_uint_len r = Mimic.Wire.decLen r := 
           have n3 : ¬ b.toNat = 252 := fun h => a3 (e3.mp h)
           simp [a1, a2, a3, n1, n2, n3]
 
-/-- `read_str_len` is the model's length-encoded string reader wherever `BytesIO.read` does not overflow -/
-theorem read_str_len_eq (r : Bytes) (h : ∀ n r', Mimic.Wire.decLen r = some (n, r') → n < 2 ^ 63) :
-    read_str_len r = Mimic.Wire.decStr r := by
+/-- `read_str_len` is the model's length-encoded string reader — unconditionally: a length that does not fit a C
+    `ssize_t` makes `BytesIO.read` raise (`Mimic.Py.readN`), which the model records as `none` too -/
+theorem read_str_len_eq (r : Bytes) : read_str_len r = Mimic.Wire.decStr r := by
   unfold read_str_len Mimic.Wire.decStr
   rw [read_uint_len_eq]
   cases hd : Mimic.Wire.decLen r with
   | none => rfl
   | some p =>
     obtain ⟨n, r'⟩ := p
-    have := h n r' hd
-    simp [read_str_fixed, Mimic.Py.read, this]
+    simp only [read_str_fixed, Mimic.Py.readN]
 
 /-- **code-level round trip**: what the translated `uint_len` / `str_len` write, the translated readers read back -/
 theorem code_lenenc_roundtrip (n : Nat) (h : n < 2 ^ 64) (rest : Bytes) : read_uint_len (uint_len n ++ rest) = some (n, rest) := by
@@ -220,10 +219,46 @@ theorem code_lenenc_roundtrip (n : Nat) (h : n < 2 ^ 64) (rest : Bytes) : read_u
 theorem code_str_roundtrip (s rest : Bytes) (h : s.length < 2 ^ 63) : read_str_len (str_len s ++ rest) = some (s, rest) := by
   rw [str_len_eq]
   rw [read_str_len_eq]
-  · exact (Mimic.Wire.decStr_encStr s h rest).1
-  · intro n r' hd
-    unfold Mimic.Wire.encStr at hd
-    rw [List.append_assoc, Mimic.Wire.decLen_encLen _ (by omega)] at hd
-    cases hd; exact h
+  exact (Mimic.Wire.decStr_encStr s h rest).1
+
+/-! ### signed readers -/
+
+theorem toSigned_eq (k n : Nat) : Mimic.Py.toSigned k n = Mimic.Wire.toSigned k n := rfl
+
+theorem unpack_one_signed (f : Fmt) (hf : f = .b ∨ f = .h ∨ f = .i ∨ f = .q) (data : Bytes) :
+    Mimic.Py.unpack [f] data = if data.length = f.size then some [Mimic.Wire.toSigned f.size (Mimic.Wire.leVal data)] else none := by
+  unfold Mimic.Py.unpack
+  by_cases hlt : data.length < f.size
+  · rw [if_pos hlt, if_neg (by omega)]
+  · simp only [hlt, if_false]
+    by_cases heq : data.length = f.size
+    · have hd : data.drop f.size = [] := List.drop_of_length_le (by omega)
+      have ht : data.take f.size = data := List.take_of_length_le (by omega)
+      rw [hd, ht]
+      simp only [Mimic.Py.unpack, heq, if_true, leVal_eq]
+      rcases hf with h | h | h | h <;> subst h <;> rfl
+    · have : f.size < data.length := by omega
+      have hne : data.drop f.size ≠ [] := by
+        intro h; have := congrArg List.length h; simp at this; omega
+      cases hd : data.drop f.size with
+      | nil => exact absurd hd hne
+      | cons x xs => simp [Mimic.Py.unpack, heq]
+
+/-- the fixed-width signed readers are the model's `readSInt` -/
+theorem read_int_1_eq (r : Bytes) : read_int_1 r = Mimic.Wire.readSInt 1 r := by
+  simp only [read_int_1, Mimic.Py.read, unpack_one_signed .b (Or.inl rfl), Fmt.size, take_length_eq, Mimic.Wire.readSInt, Mimic.Wire.readUInt, Mimic.Wire.takeN]
+  by_cases h : 1 ≤ r.length <;> simp [h]
+
+theorem read_int_2_eq (r : Bytes) : read_int_2 r = Mimic.Wire.readSInt 2 r := by
+  simp only [read_int_2, Mimic.Py.read, unpack_one_signed .h (Or.inr (Or.inl rfl)), Fmt.size, take_length_eq, Mimic.Wire.readSInt, Mimic.Wire.readUInt, Mimic.Wire.takeN]
+  by_cases h : 2 ≤ r.length <;> simp [h]
+
+theorem read_int_4_eq (r : Bytes) : read_int_4 r = Mimic.Wire.readSInt 4 r := by
+  simp only [read_int_4, Mimic.Py.read, unpack_one_signed .i (Or.inr (Or.inr (Or.inl rfl))), Fmt.size, take_length_eq, Mimic.Wire.readSInt, Mimic.Wire.readUInt, Mimic.Wire.takeN]
+  by_cases h : 4 ≤ r.length <;> simp [h]
+
+theorem read_int_8_eq (r : Bytes) : read_int_8 r = Mimic.Wire.readSInt 8 r := by
+  simp only [read_int_8, Mimic.Py.read, unpack_one_signed .q (Or.inr (Or.inr (Or.inr rfl))), Fmt.size, take_length_eq, Mimic.Wire.readSInt, Mimic.Wire.readUInt, Mimic.Wire.takeN]
+  by_cases h : 8 ≤ r.length <;> simp [h]
 
 end MimicProofs.Types
